@@ -264,6 +264,9 @@ def design_check(tier, seed, wd):
     quick = tier == "quick"
     progs = small_programs(seed, 4 if quick else 12)
     calls = 4 if quick else 5
+    if tier == "deep":
+        # (thorough tier, second pass: fewer programs, one call more)
+        progs, calls = small_programs(seed + 1, 3), 6
     cfg = os.path.join(wd, "InkHostMC-%d.cfg" % calls)
     with open(cfg, "w") as f:
         f.write("SPECIFICATION Spec\nCONSTANT MaxCalls = %d\nVIEW hview\n" % calls)
@@ -383,6 +386,13 @@ def run(tier, seed, features=None, n=None, debug=False):
     design = design_check(tier, seed, wd)
     states += design["distinct_states"]
     trans += design["states"]
+    if not quick:
+        deep = design_check("deep", seed, wd)
+        states += deep["distinct_states"]
+        trans += deep["states"]
+        design["second_pass"] = {k: v for k, v in deep.items() if k != "sample_program"}
+        lib.log("[C01] design level, second pass: %d programs, every history of <= %d calls, %d distinct states, invariants hold" % (
+            deep["programs"], deep["max_calls"], deep["distinct_states"]))
     turns = sum(len(c["turns"]) for c in all_cases)
     distinct = len(set(json.dumps([c["prog_id"], c["path"]]) for c in all_cases))
     sample = [dict(case=c["case"], path=c["path"], story=srcs[c["prog_id"]], turns=[readable(t) for t in c["turns"]])
